@@ -351,7 +351,7 @@ def parse_type_nofn(p):
     p.i = j
     return t
 
-LIBC = {'malloc', 'free', 'realloc', 'calloc', 'memcmp', 'strlen', 'memchr', 'abort', 'strcmp', '__assert_fail', 'memcpy', 'memmove', 'memset', 'bcmp'}
+LIBC = {'malloc', 'free', 'realloc', 'calloc', 'memcmp', 'strlen', 'strnlen', 'memchr', 'abort', 'strcmp', '__assert_fail', 'memcpy', 'memmove', 'memset', 'bcmp'}
 # ----------------------------------------------------------------------------- C emission
 class Emitter:
     def __init__(s, m, opts):
@@ -603,6 +603,7 @@ class Emitter:
         big = 'unsigned __int128' if w == 128 else 'uint64_t'
         if op in ('add', 'sub', 'mul', 'and', 'or', 'xor'):
             c = {'add': '+', 'sub': '-', 'mul': '*', 'and': '&', 'or': '|', 'xor': '^'}[op]
+            if op == 'mul' and w == 128 and n == 128: return 'VERIF_MUL128(%s, %s)' % (a, b)   # plain product unless the harness opts into -DVERIF_MUL128_NARROW (see prelude)
             return s.mask(n, '((%s)((%s)(%s) %s (%s)(%s)))' % (ct, big, a, c, big, b))
         if op == 'shl': return s.mask(n, '((%s)((%s)(%s) << (%s)))' % (ct, big, a, b))
         if op == 'lshr': return '((%s)((%s)(%s) >> (%s)))' % (ct, big, a, b)
@@ -655,7 +656,7 @@ class Emitter:
         return '(int64_t)' + s.sx(s.resolve(v.ty).n, s.val(v, fn))
 
 # ----------------------------------------------------------------------------- functions
-NOUNWIND_EXT = {'malloc', 'free', 'realloc', 'calloc', 'memcmp', 'strlen', 'memchr', 'abort', '__assert_fail', '__CPROVER_assume', '__CPROVER_assert'}
+NOUNWIND_EXT = {'malloc', 'free', 'realloc', 'calloc', 'memcmp', 'strlen', 'strnlen', 'memchr', 'abort', '__assert_fail', '__CPROVER_assume', '__CPROVER_assert'}
 
 class FnCtx:
     def __init__(s, em, f):
@@ -966,16 +967,30 @@ class FuncTranslator:
             nm = R + '_mem'
             cx.decls[nm] = I.aty
             out.append('%s = &%s;' % (R, nm)); return
+        def L_(v, ty):
+            # opt-in (opts['inline_gep']): a load/store through a getelementptr with a non-constant index is emitted as the element lvalue itself
+            # (`base[i].f = x` instead of `p = &base[i].f; *p = x`): CBMC then sees an array-element access (a `with` on element i) instead of a
+            # pointer variable with unknown offset, whose dereference is a byte_update of the whole object. Valid because GEP operands are SSA values.
+            if em.opts.get('inline_gep') and v.kind == 'local' and v.name in s.defs:
+                D = s.defs[v.name]
+                if D.op == 'getelementptr' and any(x.kind != 'int' for x in D.ops[1:]):
+                    try:
+                        e, cur = em.gep(D.sty, D.ops, cx)
+                        if e.startswith('(&') and e.endswith(')') and em.ctype(cur) == em.ctype(ty) and not isinstance(em.resolve(cur), (TStruct, TArr, TVec)):
+                            return e[2:-1]
+                    except Exception:
+                        pass
+            return '*(%s)' % V_(v)
         if op == 'load':
             r = em.resolve(I.ty)
             if isinstance(r, TInt) and r.n not in (8, 16, 32, 64, 128):
                 out.append('%s = 0; memcpy(&%s, %s, %d); %s = %s;' % (R, R, V_(I.ptr), (r.n + 7) // 8, R, em.mask(r.n, R))); return
-            out.append('%s = *(%s);' % (R, V_(I.ptr))); return
+            out.append('%s = %s;' % (R, L_(I.ptr, I.ty))); return
         if op == 'store':
             r = em.resolve(I.v.ty)
             if isinstance(r, TInt) and r.n not in (8, 16, 32, 64, 128):
                 out.append('{ %s tmp_ = %s; memcpy(%s, &tmp_, %d); }' % (em.ctype(I.v.ty), V_(I.v), V_(I.ptr), (r.n + 7) // 8)); return
-            out.append('*(%s) = %s;' % (V_(I.ptr), V_(I.v))); return
+            out.append('%s = %s;' % (L_(I.ptr, I.v.ty), V_(I.v))); return
         if op == 'getelementptr':
             e, _ = em.gep(I.sty, I.ops, cx)
             out.append('%s = (%s)%s;' % (R, em.ctype(I.gty), e)); return
@@ -1317,6 +1332,7 @@ class FuncTranslator:
                         # go through a scalar pointer temporary (exactly like an ordinary GEP result): dereferencing the *struct* pointer
                         # itself makes CBMC fall back to an unconstrained object when the pointee is a type-punned global reached
                         # with a symbolic index (seen with constant-initialised literal-struct globals)
+                        if pth is not None and em.opts.get('inline_gep'): return '(%s)[%d]%s' % (V_(bx), k, pth)   # opt-in: plain member lvalue (struct-typed dereference -> array-element access when the pointer offset is symbolic)
                         if pth is not None: return '(*({ %s* p_ = &(%s)[%d]%s; p_; }))' % (ct, V_(bx), k, pth)
                 except Exception:
                     pass
@@ -1452,6 +1468,16 @@ static inline __int128 SDIV128(__int128 a, __int128 b) { return a / b; }
 static inline __int128 SREM128(__int128 a, __int128 b) { return a % b; }
 uint8_t* ll_memcpy(uint8_t*, uint8_t*, uint64_t); uint8_t* ll_memmove(uint8_t*, uint8_t*, uint64_t); uint8_t* ll_memset(uint8_t*, uint32_t, uint64_t);
 static inline void* verif_alloc_check(void* p) { __CPROVER_assume(p != 0); return p; }
+/* 128-bit multiplication (FeeFrac::Mul and friends). Default: the plain product. Opt-in -DVERIF_MUL128_NARROW (harnesses whose operands are small by construction):
+   both operands are ASSERTED to be sign-extended 16-bit values and the product is computed as int16 x int16 -> int32, sign-extended. A 128x128 multiplier whose operand
+   bits are symbolic sign-extension copies costs ~80k clauses per product; sound because a feasible wider operand fails the assertion. */
+#if defined(VERIF_MUL128_NARROW) && defined(__CPROVER__)
+#define VERIF_MUL128(a, b) ({ unsigned __int128 a_ = (a), b_ = (b); int ok_ = (a_ == (unsigned __int128)(__int128)(int16_t)a_) && (b_ == (unsigned __int128)(__int128)(int16_t)b_); \
+  __CPROVER_assert(ok_, "128-bit multiplication operands within the harness's declared VERIF_MUL128_NARROW width"); __CPROVER_assume(ok_); \
+  (unsigned __int128)(__int128)((int32_t)(int16_t)a_ * (int32_t)(int16_t)b_); })
+#else
+#define VERIF_MUL128(a, b) ((unsigned __int128)((unsigned __int128)(a) * (unsigned __int128)(b)))
+#endif
 /* typed allocation whose element count is not a compile-time constant (vector growth: the count is symbolic after a path merge, and a symbolic-size
    array of structs is very expensive). Opt-in -DVERIF_TALLOC_MAX=k: the count is ASSERTED to be <= k and exactly k elements are allocated, so symex sees one
    constant-size object (over-allocation is unobservable; a feasible larger allocation fails the assertion; same idea as VERIF_ALLOC_MAX in rt.c) */
@@ -1477,8 +1503,29 @@ unsigned __int128 verif_fshl(unsigned __int128 a, unsigned __int128 b, unsigned 
 #endif
 '''
 
+_RT_TI = None
+def _rt_typeinfos():
+    global _RT_TI
+    if _RT_TI is None:
+        import os, re as _re
+        try: _RT_TI = set(_re.findall(r'^struct verif_ti (_ZTI\w+) =', open(os.path.join(os.path.dirname(os.path.abspath(__file__)), 'rt.c')).read(), _re.M))
+        except OSError: _RT_TI = set()
+    return _RT_TI
+
+_RT_THROW = None
+def _rt_throw_fns():
+    global _RT_THROW
+    if _RT_THROW is None:
+        import os, re as _re
+        try: _RT_THROW = set(_re.findall(r'^void (_ZSt\d+__throw_\w+)\(', open(os.path.join(os.path.dirname(os.path.abspath(__file__)), 'rt.c')).read(), _re.M))
+        except OSError: _RT_THROW = set()
+    return _RT_THROW
+
 def translate_module(text, opts=None):
     m = parse_module(text)
+    # libstdc++ header-inline `std::__throw_*` helpers (e.g. __throw_bad_optional_access) are emitted by the TU when used; the runtime model's definition wins
+    for name, f in m.funcs.items():
+        if f.defined and name[1:] in _rt_throw_fns(): f.defined = False; f.blocks = collections.OrderedDict()
     em = Emitter(m, opts or {})
     protos = []; bodies = []
     # globals first (types get emitted lazily)
@@ -1486,6 +1533,8 @@ def translate_module(text, opts=None):
     for name, (ty, init, const) in m.globals.items():
         cn = em.cname(name, 'g')
         ct = em.ctype(ty)
+        if init is not None and name.startswith('@_ZTI') and name[1:] in _rt_typeinfos():
+            gdecl.append('extern struct verif_ti %s;' % cn); continue     # header-only exception class (e.g. std::bad_optional_access): the TU emits its type_info too; rt.c's copy (same layout) is the one the exception model walks
         if init is None:
             if name.startswith('@_ZTI'): gdecl.append('extern struct verif_ti %s;' % cn)          # std::type_info objects live in rt.c
             elif name.startswith('@_ZTVN10__cxxabiv1'): gdecl.append('extern void* %s[8];' % cn)
@@ -1508,7 +1557,7 @@ def translate_module(text, opts=None):
             raise RuntimeError('in function %s: %s' % (name, e)) from e
         bodies.append(body)
     for name, (ty, init, const) in m.globals.items():
-        if init is not None:
+        if init is not None and not (name.startswith('@_ZTI') and name[1:] in _rt_typeinfos()):
             gdef.append('%s %s = %s;' % (em.ctype(ty), em.cname(name, 'g'), em.init(init)))
     out = [PRELUDE]
     out.extend(em.struct_defs)
